@@ -34,7 +34,7 @@ def main():
             tier = args.pop(0)
         elif a == "--skip-confirm":
             skip_confirm = True
-    wt = "/tmp/mut-%s" % pid
+    wt = os.environ.get("MUT_WT_PREFIX", "/tmp/mut-") + pid
     src = os.path.join(wt, "MUTATION", which)
     patch = os.path.join(src, "patch.diff")
     dst = os.path.join(ROOT, "seeded", "%s-%s" % (pid, which))
